@@ -55,6 +55,10 @@ func c09kinds() []c09kind {
 		{"variadic", "[n & r]", "r", `(f (- n 1) n 7)`, "", false, false},
 		{"lazy-param", "[n #x]", `(force #x)`, `(f (- n 1) (t n (+ n 100)))`, "0", false, false},
 		{"arg-order", "[n acc]", "acc", `(f (t 1 (- n 1)) (t 2 (+ acc n)))`, "0", true, false},
+		// an ordinary self-call inside an argument of the tail self-call (McCarthy-91 / Ackermann shape)
+		{"self-call-in-arg", "[n acc]", "acc", `(f (- n 1) (f 0 (+ acc n)))`, "0", true, false},
+		{"self-call-in-arg-let", "[n acc]", "acc", `(f (- n 1) (let [z (+ acc n)] (f 0 z)))`, "0", true, false},
+		{"self-call-in-arg-cond", "[n acc]", "acc", `(f (- n 1) (cond (== n -5) 0 (begin (f 0 (+ acc n)))))`, "0", true, false},
 		{"wrong-arity", "[n acc]", "acc", `(f (t 1 (- n 1)))`, "0", false, true},
 		{"wrong-arity-more", "[n acc]", "acc", `(f (- n 1) acc (t 1 7))`, "0", false, true},
 		{"variadic-too-few", "[n m & r]", "r", `(f (t 1 (- n 1)))`, "0", false, true},
@@ -228,6 +232,16 @@ func c09nonTailCtx() []gen.Ctx {
 		tmpl("nt-template-array", 1, `(syntaxQuote [(unquote $1) y])`),
 		tmpl("nt-template-splice", 1, `(syntaxQuote (x (unquote-splicing (list $1))))`),
 		tmpl("nt-for-body", 1, `(begin (def res 0) (for [(def i 0) (< i 1) (set i (+ i 1))] (set res $1)) res)`),
+		tmpl("nt-newscope-first", 1, `(newScope $1 (t 5 n))`),
+		tmpl("nt-let-body-first", 1, `(let [q 1] $1 (t 5 n))`),
+		tmpl("nt-cond-second-test", 1, `(cond false 1 $1 (t 6 1) (t 7 2))`),
+		tmpl("nt-and-middle", 1, `(and 1 $1 (t 6 77))`),
+		tmpl("nt-or-middle", 1, `(or false (not $1) (t 6 78))`),
+		tmpl("nt-for-init", 1, `(begin (def res 0) (for [(def i $1) (< res 1) (set res (+ res 1))] (set gv i)) (list res n))`),
+		tmpl("nt-for-test", 1, `(begin (def res 0) (for [(def i 0) (and (< i 1) $1) (set i (+ i 1))] (set res (+ res 1))) (list res n))`),
+		tmpl("nt-for-step", 1, `(begin (def res 0) (for [(def i 0) (< i 1) (set i (+ 1 (begin $1 i)))] (set res (+ res 1))) (list res n))`),
+		tmpl("nt-nested-argument", 1, `(list 0 (list (+ 1 (first (list $1)))))`),
+		tmpl("nt-set-local", 1, `(begin (def lv 0) (set lv $1) (list lv n))`),
 	}
 }
 
@@ -293,7 +307,7 @@ func init() {
 	engine.Register(&engine.Check{
 		ID:    "C09",
 		Level: "exploration",
-		Rule: "every composition of tail contexts {cond default arm, cond first arm, begin last, let, letseq, newScope, and, or, let shadowing the parameter} to nesting depth 2 (thorough 3) x 9 body kinds " +
+		Rule: "every composition of tail contexts {cond default arm, cond first arm, begin last, let, letseq, newScope, and, or, let shadowing the parameter} to nesting depth 2 (thorough 3) x 15 body kinds " +
 			"(plain, local def, closure over parameter/local, mutating closure, helper call, variadic, lazy parameter, traced argument order): transparency vs the reference evaluator for depths 0,1,2,3,10; " +
 			"stack high-water marks (sampled in a pre-call hook) equal for depths 10,60,300 (thorough: 10,100,1000 and 100000 for the accumulating kinds); distinct_nontrivial = distinct (shape, depth, high-water, value) tuples",
 		Assumptions: []string{
